@@ -58,6 +58,7 @@ def run(ctx: Ctx) -> Result:
         except BaseException as e: return 'ERR:' + type(e).__name__
     dec_lines, dec_expect = [], []
     rejected = 0
+    lenient_rejections = 0
     # (1) random abstract programs in random spellings
     for i in range(ctx.n(6000, 120000)):
         prog = g.program()
@@ -68,6 +69,8 @@ def run(ctx: Ctx) -> Result:
             got = comp(src)
             if got != want:
                 if isinstance(got, str):
+                    if g.lenient:
+                        lenient_rejections += 1; continue       # e.g. an upper-case value prefix: rejecting it is fine, mis-assembling it is not
                     rejected += 1
                     viol(src, want.hex(), got + ' (a valid spelling of an encodable program was rejected)')
                 else:
@@ -148,7 +151,7 @@ def run(ctx: Ctx) -> Result:
     bad_sources = ['push x', 'push x' + 'ab' * 65536, 'add_ints d256', 'add_ints d-129', 'add_ints x0102', 'swap d256 d0', 'swap d1', 'merkleval x00',
                    'if { push x' + 'ab' * 65535 + ' }', 'def 256 { }', 'def 0 { ', 'if { true', 'op_nonexistent', 'nop300 d1', 'nop92 d200', 'write_cache xaa d256',
                    'push1 x' + 'ab' * 256, 'div_float x0102', 'check_multisig d1 d2', '!undefined [ ]', '# unterminated comment', 'try { true } except { false } except { true }',
-                   'push d1 if', 's"unterminated']
+                   'push d1 if', 's"unterminated', 'check_multisig x00 d-1 d2', 'check_multisig x00 d2.0 d2', 'check_multisig x00 dtwo d3', 'check_multisig_verify x00 d+3 d3', 'swap d-1 d2', 'swap dtwo d1', 'add_ints dtwo']
     for src in bad_sources:
         res.note_case(('bad', src[:80]))
         got = comp(src)
@@ -167,6 +170,7 @@ def run(ctx: Ctx) -> Result:
     else:
         res.disagreements.append({'driver': 'not built'})
     res.stats['rejected_valid_spellings'] = rejected
+    res.stats['rejections_of_sources_with_upper_case_value_prefixes (allowed)'] = lenient_rejections
     res.stats['search'] = 'every source is judged on the implementation alone against the documented encoding of its abstract program'
     return res
 
